@@ -10,6 +10,8 @@ import (
 	"strconv"
 	"strings"
 	"syscall"
+	"unicode"
+	"unicode/utf8"
 
 	"golang.org/x/mod/module"
 	modzip "golang.org/x/mod/zip"
@@ -17,7 +19,7 @@ import (
 
 func init() {
 	register(&Prop{ID: "C12", Gen: genC12, Oracle: oracleC12,
-		Rule: "real archives written with archive/zip (raw headers, so declared sizes may disagree with the content): entry names = module prefix (correct, wrong, case-varied, missing) + paths from C17's pools and escapes (.., ../x, /abs, a\\b, empty, trailing /, duplicates, file-vs-directory, unicode, 300-byte names, go.mod placements); declared sizes honest, off by one, at 16MiB+-1, 500MiB+-1, 2^32, 2^63, 2^64-1; target directory missing / empty / non-empty / a file; sparse archive files above the size limit; non-trivial = every case; distinct by op line"})
+		Rule: "real archives written with archive/zip (raw headers, so declared sizes may disagree with the content): entry names = module prefix (correct, wrong, case-varied, missing) + paths from C17's pools and escapes (.., ../x, /abs, a\\b, empty, trailing /, duplicates, file-vs-directory, unicode, 300-byte names, go.mod placements, the 22 reserved Windows device names in every letter case with chains of 0-3 dot-separated suffixes as file / directory element / directory entry at depths 0-3 and their near misses); declared sizes honest, off by one, at 16MiB+-1, 500MiB+-1, 2^32, 2^63, 2^64-1; target directory missing / empty / non-empty / a file; sparse archive files above the size limit; non-trivial = every case; distinct by op line"})
 }
 
 // osLimits: also use path elements longer than NAME_MAX (the model knows no operating-system limits).
@@ -74,7 +76,7 @@ func c12GenEntries(r *Rand, mp, mv string, osLimits bool) []zipuEntry {
 		}
 	}
 	for k := nmut; k > 0; k-- {
-		sel := r.Intn(16)
+		sel := r.Intn(18)
 		if kind >= 0 {
 			sel = kind
 		}
@@ -128,6 +130,22 @@ func c12GenEntries(r *Rand, mp, mv string, osLimits bool) []zipuEntry {
 			add(prefix+r.Pick(long), []byte("long"))
 		case 12:
 			add(prefix+r.Pick([]string{"LICENSE", "sub/LICENSE", "license", "con", "aux.go", "x.", ".x", "a b", " ", "a*b", "x~1", "vendor/a/b.go", ".git/config", ".hg_archival.txt"}), []byte("n"))
+		case 16, 17:
+			// a reserved device name (any letter case) with 0-3 dot-separated suffixes as a file, a directory element
+			// or a directory entry, at the root or below the directory of an existing entry; and its near misses
+			dir := ""
+			if len(es) > 0 && r.Bool() {
+				if e := es[r.Intn(len(es))]; strings.HasPrefix(e.name, prefix) {
+					if d := path.Dir(strings.TrimSuffix(e.name[len(prefix):], "/")); d != "." && d != "/" {
+						dir = d + "/"
+					}
+				}
+			}
+			el := c12ReservedElem(r, r.Intn(4))
+			if r.Chance(15) {
+				el = r.Pick(c12NearReserved)
+			}
+			add(prefix+dir+el+r.Pick([]string{"", "", "/x.go", "/", "/sub/y.txt"}), []byte("dev"))
 		case 13, 14, 15:
 			if len(es) > 0 { // declared size lies
 				i := r.Intn(len(es))
@@ -203,11 +221,137 @@ func c12FoldAndOrder() [][]zipuEntry {
 	return out
 }
 
+// ---- reserved Windows device names with dotted suffixes
+//
+// Input class added for the rule "the element prefix up to the FIRST dot must not be a reserved file name on Windows,
+// regardless of case": the archive stream had reserved names only bare or with one extension ("con", "aux.go", and
+// "lpt9.x.y" once in a pool of 26 bad elements, drawn with probability of about 1/1000 per element), so code that looks
+// at the element minus its LAST extension (or at any other cut) was indistinguishable. The class is the product
+// dictionary of 22 device names x letter case x chains of 0-3 dot-separated suffixes x place in the entry name
+// (file at the root, file below directories, directory element, explicit directory entry), with near misses that
+// every reading of the rule accepts.
+
+var c12Reserved = []string{"CON", "PRN", "AUX", "NUL", "COM1", "COM2", "COM3", "COM4", "COM5", "COM6", "COM7", "COM8", "COM9",
+	"LPT1", "LPT2", "LPT3", "LPT4", "LPT5", "LPT6", "LPT7", "LPT8", "LPT9"}
+
+var c12Suffixes = []string{"a", "b", "d", "x", "go", "txt", "tar", "gz", "bak", "old", "log", "v1", "2024", "1", "con", "NUL", "d~1", "-", "é"}
+
+// names that look reserved but are valid under the documented rule (the prefix up to the first dot is not a device name)
+var c12NearReserved = []string{"console.tar.gz", "x.aux.gz", "com10.a.b", ".nul.x", "com0.a.b", "lpt.1.2", "com.1.x", "con1.a.b", "xcon.a.b",
+	"a.con.b", "a.b.con", "auxx.tar.gz", "nu.l.x", "-prn.a.b", "_nul.a.b", "con~1.a.b", "lpt10.bak.d", "co.n.a", ".con", "x.con.y.nul"}
+
+// c12RandCase gives every letter of w a random case.
+func c12RandCase(r *Rand, w string) string {
+	b := []byte(w)
+	for i, c := range b {
+		if 'A' <= c && c <= 'Z' && r.Bool() {
+			b[i] = c | 0x20
+		}
+	}
+	return string(b)
+}
+
+// c12ReservedElem: a device name in random letter case followed by nsuf dot-separated suffixes.
+func c12ReservedElem(r *Rand, nsuf int) string {
+	var w string
+	switch r.Intn(4) {
+	case 0:
+		w = r.Pick(c12Reserved)
+	case 1:
+		w = strings.ToLower(r.Pick(c12Reserved))
+	default:
+		w = c12RandCase(r, r.Pick(c12Reserved))
+	}
+	for ; nsuf > 0; nsuf-- {
+		w += "." + r.Pick(c12Suffixes)
+	}
+	return w
+}
+
+// c12ReservedSweep: small archives around one element each. Every device name with 0, 1, 2 and 3 suffixes, the place of
+// the element rotating (all places for every name and suffix count in the thorough tier), plus the near misses.
+func c12ReservedSweep(r *Rand) [][]zipuEntry {
+	pfx := "example.com/m@v1.0.0/"
+	file := func(p string) zipuEntry { return zipuEntry{name: pfx + p, decl: uint64(len(p)), content: []byte(p)} }
+	gomod := zipuEntry{name: pfx + "go.mod", decl: 21, content: []byte("module example.com/m\n")}
+	place := func(el string, k int) []zipuEntry {
+		switch k % 6 {
+		case 0:
+			return []zipuEntry{file(el)}
+		case 1:
+			return []zipuEntry{gomod, file("dist/" + el)}
+		case 2:
+			return []zipuEntry{file("a.go"), file("third_party/" + el + "/x.go")}
+		case 3:
+			return []zipuEntry{file("a.go"), {name: pfx + el + "/"}}
+		case 4:
+			return []zipuEntry{gomod, file("a/b/c/" + el), file("z.go")}
+		}
+		return []zipuEntry{file(el + "/deep/er/y.txt"), file("LICENSE")}
+	}
+	var out [][]zipuEntry
+	for i, w := range c12Reserved {
+		for nsuf := 0; nsuf <= 3; nsuf++ {
+			places := []int{i + nsuf, i + nsuf + 3}
+			if thorough {
+				places = []int{0, 1, 2, 3, 4, 5}
+			}
+			for _, k := range places {
+				el := []string{w, strings.ToLower(w), c12RandCase(r, w)}[(i+k)%3]
+				for j := 0; j < nsuf; j++ {
+					el += "." + r.Pick(c12Suffixes)
+				}
+				out = append(out, place(el, k))
+			}
+		}
+	}
+	for i, el := range c12NearReserved {
+		out = append(out, place(el, i))
+	}
+	return out
+}
+
+// c12SpecFilePath states the documented rule for file paths (doc comment of module.CheckFilePath) on its own, without
+// calling the module package: valid UTF-8; non-empty slash-separated elements of Unicode letters, ASCII digits, space and
+// !#$%&()+,-.=@[]^_{}~; no leading or trailing slash (hence no empty element); no element made of dots only or
+// ending in a dot; the prefix of an element up to its first dot is not a reserved Windows file name in any letter case.
+func c12SpecFilePath(p string) bool {
+	if !utf8.ValidString(p) || p == "" {
+		return false
+	}
+	for _, e := range strings.Split(p, "/") {
+		if e == "" || strings.Trim(e, ".") == "" || strings.HasSuffix(e, ".") {
+			return false
+		}
+		for _, c := range e {
+			if c < 0x80 {
+				if !('0' <= c && c <= '9' || 'A' <= c && c <= 'Z' || 'a' <= c && c <= 'z' || strings.ContainsRune("!#$%&()+,-.=@[]^_{}~ ", c)) {
+					return false
+				}
+			} else if !unicode.IsLetter(c) {
+				return false
+			}
+		}
+		short, _, _ := strings.Cut(e, ".")
+		for _, w := range c12Reserved {
+			if strings.EqualFold(w, short) {
+				return false
+			}
+		}
+	}
+	return true
+}
+
 func genC12(g *Gen, n int) {
 	for _, es := range append(append(c12HugeSizes(), c12ModeBits()...), c12FoldAndOrder()...) {
 		tok := zipuEntriesTok(es)
 		g.Emit("zip.checkzip "+hx("example.com/m")+" "+hx("v1.0.0")+" 0 "+tok, true, "fixed-sizes-modes")
 		g.Emit("zip.unzip "+hx("example.com/m")+" "+hx("v1.0.0")+" 0 m "+tok, true, "fixed-sizes-modes")
+	}
+	for _, es := range c12ReservedSweep(g.Rand) {
+		tok := zipuEntriesTok(es)
+		g.Emit("zip.checkzip "+hx("example.com/m")+" "+hx("v1.0.0")+" 0 "+tok, true, "reserved-dotted")
+		g.Emit("zip.unzip "+hx("example.com/m")+" "+hx("v1.0.0")+" 0 m "+tok, true, "reserved-dotted")
 	}
 	// the archive-size limit is checked before the archive is opened: sparse files
 	g.Emit("zip.checkzip "+hx("example.com/m")+" "+hx("v1.0.0")+" "+itoa(zipu500M+1)+" _", true, "zipsize")
@@ -303,7 +447,7 @@ func c12Check(g *Gen, m module.Version, es []zipuEntry, target byte, line string
 			}
 			isDir := strings.HasSuffix(rel, "/")
 			rel = strings.TrimSuffix(rel, "/")
-			if rel != path.Clean(rel) || path.IsAbs(rel) || module.CheckFilePath(rel) != nil {
+			if rel != path.Clean(rel) || path.IsAbs(rel) || module.CheckFilePath(rel) != nil || !c12SpecFilePath(rel) {
 				g.Fail("C12 restrictions: accepted an archive with an unclean, absolute or ill-formed path", hx(e.name), line)
 				return ""
 			}
@@ -388,6 +532,11 @@ func oracleC12(g *Gen, n int) {
 		m := module.Version{Path: "example.com/m", Version: "v1.0.0"}
 		t := "me"[g.Intn(2)]
 		c12Check(g, m, es, t, "zip.unzip "+hx(m.Path)+" "+hx(m.Version)+" 0 "+string(t)+" "+zipuEntriesTok(es))
+	}
+	for _, es := range c12ReservedSweep(g.Rand) {
+		m := module.Version{Path: "example.com/m", Version: "v1.0.0"}
+		g.Case("reserved-dotted")
+		c12Check(g, m, es, 'm', "zip.unzip "+hx(m.Path)+" "+hx(m.Version)+" 0 m "+zipuEntriesTok(es))
 	}
 	for i := 0; i < n; i++ {
 		mp, mv := zipuPickMod(g.Rand, 4)
